@@ -87,7 +87,7 @@ struct Handles : Profile {
                     p.ops.push_back(mkop(0, names[k], {(int64_t)r.below(6), (int64_t)r.below(2)}));
                     break;
                 case 13: // kind of id (file / access), file, order in which the three are released
-                    p.ops.push_back(mkop(0, names[k], {(int64_t)r.below(2), (int64_t)r.below(2), (int64_t)r.below(6)}));
+                    p.ops.push_back(mkop(0, names[k], {(int64_t)r.below(3), (int64_t)r.below(2), (int64_t)r.below(6)})); // kind 2: two files
                     break;
                 default:
                     p.ops.push_back(mkop(0, names[k], {(int64_t)r.below(100)}));
@@ -898,9 +898,44 @@ struct Handles : Profile {
                 // Three ids of one kind that are valid at the same time and lie a multiple of the id table's size apart (64
                 // for file ids, 256 for access ids: they share a chain of the table), released in a given order: releasing one
                 // must not disturb the two others.
-                int f = modn(o.arg(1), 2), kind = modn(o.arg(0), 2);
+                int f = modn(o.arg(1), 2), kind = o.arg(0) == 2 ? 2 : modn(o.arg(0), 2);
                 if (!s.on_disk[f] || !s.populated[f])
                     done = false;
+                else if (kind == 2) {
+                    // Two files whose ids share a chain of the id table, the older one opened again while both are open: the
+                    // library has to find the record of the open file (a second, independent record would let a creating
+                    // open truncate the file under the first id).
+                    if (!s.on_disk[1 - f] || !s.populated[1 - f])
+                        done = false;
+                    else {
+                        int32 a = Hopen(path(f).c_str(), DFACC_READ, 0);
+                        if (a == FAIL)
+                            ctx.fail("open-failed", "open-failed:hashchain", "Hopen(READ) failed");
+                        for (int c2 = 0; c2 < 63; c2++) {
+                            int32 t = Hopen(path(1 - f).c_str(), DFACC_READ, 0);
+                            if (t == FAIL || Hclose(t) == FAIL)
+                                ctx.fail("acquire-failed", "acquire-failed:hashchain-churn", "an id could not be issued and released");
+                        }
+                        int32 b = Hopen(path(1 - f).c_str(), DFACC_READ, 0);
+                        if (b == FAIL)
+                            ctx.fail("open-failed", "open-failed:hashchain", "Hopen(READ) of the second file failed");
+                        int32 again = Hopen(path(f).c_str(), DFACC_CREATE, 0);
+                        ctx.st.checks++;
+                        if (again != FAIL)
+                            ctx.fail("accepted", "accepted:create-over-open-file",
+                                     "Hopen(DFACC_CREATE) on a file that is open through another id (64 ids earlier) succeeded: the file is truncated under that id");
+                        int32 a2 = Hopen(path(f).c_str(), DFACC_READ, 0);
+                        uint8 got[64];
+                        memset(got, 0, sizeof got);
+                        if (a2 == FAIL || Hgetelement(a2, 8800, 1, got) != elem_len(f, 1) || got[0] != elem_byte(f, 1) ||
+                            Hgetelement(a, 8800, 1, got) != elem_len(f, 1) || got[0] != elem_byte(f, 1) ||
+                            Hgetelement(b, 8800, 1, got) != elem_len(1 - f, 1) || got[0] != elem_byte(1 - f, 1))
+                            ctx.fail("alias", "alias:file-ids-sharing-a-chain", "with two files open whose ids share a chain of the id table, an id does not read its own file's element");
+                        if ((a2 != FAIL && Hclose(a2) == FAIL) || Hclose(b) == FAIL || Hclose(a) == FAIL)
+                            ctx.fail("release-failed", "release-failed:hashchain", strf("closing the ids failed: %s", herr().c_str()));
+                        ctx.probe("two-files-sharing-a-chain");
+                    }
+                }
                 else {
                     int32 base = Hopen(path(f).c_str(), DFACC_READ, 0);
                     if (base == FAIL)
